@@ -215,9 +215,9 @@ func reconstruct(p dpredictor, x0, x1 float64) cubicSeg {
 // quantity; each was calibrated on the unchanged tree with all knot and data
 // classes (the observed maximum ratio is quoted where the constant is used).
 const (
-	tolC0     = 16   // value continuity at the right end of a piece
-	tolC1Herm = 16   // derivative continuity, Hermite-built cubics
-	tolC1Spl  = 512  // derivative continuity of splines: depends on the banded solve
+	tolC0     = 16  // value continuity at the right end of a piece
+	tolC1Herm = 16  // derivative continuity, Hermite-built cubics
+	tolC1Spl  = 512 // derivative continuity of splines: depends on the banded solve
 )
 
 func checkInterp(c interpCase) *vk.Failure {
@@ -394,6 +394,20 @@ func checkInterp(c interpCase) *vk.Failure {
 		segs[i] = reconstruct(dp, xs[i], xs[i+1])
 	}
 	spline := c.Type == tNatural || c.Type == tClamped || c.Type == tNotAKnot
+	// NotAKnotCubic solves a banded system by LU with partial pivoting: its
+	// rounding errors are relative to the largest second derivative of the
+	// whole spline, not to the local one (the tridiagonal, diagonally
+	// dominant systems of the other two splines are solved to componentwise
+	// accuracy). wg1, wg2: global first- and second-derivative scales.
+	wg1, wg2 := 0.0, 0.0
+	if c.Type == tNotAKnot {
+		for _, s := range segs {
+			if s.ok {
+				wg1 = math.Max(wg1, s.scale(s.dx)/s.dx)
+				wg2 = math.Max(wg2, s.scale(s.dx)/(s.dx*s.dx))
+			}
+		}
+	}
 	for i, s := range segs {
 		if !s.ok {
 			vk.Class("interp:interval-too-small-to-probe")
@@ -428,7 +442,7 @@ func checkInterp(c interpCase) *vk.Failure {
 		if spline {
 			k1 = tolC1Spl
 		}
-		W := V/s.dx + math.Abs(d[i+1])
+		W := V/s.dx + math.Abs(d[i+1]) + wg1
 		if i+1 < len(segs) && segs[i+1].ok {
 			W += segs[i+1].scale(segs[i+1].dx) / segs[i+1].dx
 		}
@@ -481,10 +495,10 @@ func checkInterp(c interpCase) *vk.Failure {
 		case c.Type == tNotAKnot:
 			if n >= 4 {
 				a, b := segs[0], segs[1]
-				W3 := a.scale(a.dx)/(a.dx*a.dx*a.dx) + b.scale(b.dx)/(b.dx*b.dx*b.dx)
+				W3 := a.scale(a.dx)/(a.dx*a.dx*a.dx) + b.scale(b.dx)/(b.dx*b.dx*b.dx) + wg2/math.Min(a.dx, b.dx)
 				tolL := 6 * (tolC1Spl*vk.Eps*W3 + a.e3 + b.e3)
 				y, z := segs[len(segs)-2], last
-				W3 = y.scale(y.dx)/(y.dx*y.dx*y.dx) + z.scale(z.dx)/(z.dx*z.dx*z.dx)
+				W3 = y.scale(y.dx)/(y.dx*y.dx*y.dx) + z.scale(z.dx)/(z.dx*z.dx*z.dx) + wg2/math.Min(y.dx, z.dx)
 				tolR := 6 * (tolC1Spl*vk.Eps*W3 + y.e3 + z.e3)
 				calib("interp-notaknot-bc-"+knotName[c.Knots], math.Max(6*math.Abs(a.a3-b.a3)/tolL, 6*math.Abs(y.a3-z.a3)/tolR))
 				if !(6*math.Abs(a.a3-b.a3) <= tolL) || !(6*math.Abs(y.a3-z.a3) <= tolR) {
@@ -697,7 +711,7 @@ func drawInterpCase(t *rapid.T) interpCase {
 }
 
 func TestInterp(t *testing.T) {
-	vk.Run(t, "interp", vk.Opts{Quick: 14000, Thorough: 400000, NoCrumb: true}, drawInterpCase, checkInterp)
+	vk.Run(t, "interp", vk.Opts{Quick: 14000, Thorough: 1500000, NoCrumb: true}, drawInterpCase, checkInterp)
 }
 
 // ---- documented panics ---------------------------------------------------------
